@@ -910,6 +910,24 @@ pub fn run_c06(sim: &Sim, prop: &str, tier: Tier) -> Outcome {
 
     let mut rx = new_receiver(sim, kind, &wire, &back);
     let sig = |what: &str| format!("{}:{}", kind.name(), what);
+    // the receiver is a full link endpoint: in some runs the application also sends through
+    // it between polls, against a transmitter that is busy now and then (delays only)
+    let send_pct = sim.pick(&[0u32, 0, 0, 0, 10, 40]);
+    if send_pct > 0 {
+        let mut t = crate::dev::TxPolicy::benign();
+        match kind {
+            LinkKind::Serial => {
+                t.short = sim.pick(&[50u32, 0]);
+                t.interrupted = sim.pick(&[0u32, 20]);
+            }
+            _ => {
+                t.wb = sim.pick(&[50u32, 90, 10]);
+                t.wb_burst = sim.pick(&[3u32, 1, 50]);
+            }
+        }
+        back.borrow_mut().tx = t;
+        sim.probe("receiver_object_also_sends");
+    }
 
     let mut probe_oks: Vec<Packet> = Vec::new();
     let mut p1_errors = 0u32;
@@ -954,6 +972,22 @@ pub fn run_c06(sim: &Sim, prop: &str, tier: Tier) -> Outcome {
                     sim.count("receiver_restarted");
                     sim.event(crate::scenario::EV_APP, 1, cur as u64, || "receiver object recreated (restart)".to_string());
                 }
+            }
+            if send_pct > 0 && sim.chance(send_pct) {
+                let p = Packet {
+                    is_error: false,
+                    device_address: 0x0e0f,
+                    data: fill_pattern(0, polls as u32, sim.pick(&[4usize, 20, 9])),
+                };
+                match crate::scenario::send(sim, "rx", &mut rx, &p) {
+                    Err(Crash::Panic(m)) => return Outcome::Foreign("C14.exact", format!("sender panicked: {}", m)),
+                    Err(Crash::Blocked) => return Outcome::Foreign("C14.term", "sender blocked".to_string()),
+                    _ => {}
+                }
+                // what it wrote is of no interest here
+                let mut b = back.borrow_mut();
+                b.bytes.clear();
+                b.cframes.clear();
             }
             let out = poll(sim, "rx", &mut rx, &wire);
             polls += 1;
